@@ -18,8 +18,13 @@ impl Code {
         let mut local_variables = LocalVariables::new(interpreter);
         let instructions = parse
             .map(|pair| {
-                InstructionWithStr::new(pair, &mut local_variables)
-                    .and_then(|iws| Ok(iws.recreate(&mut local_variables)?))
+                // create the statement in a scratch layer: its own declarations must not be
+                // visible to the recreate pass that follows ("x := f(x)" refers to the old x)
+                let iws = {
+                    let mut layer = local_variables.create_layer();
+                    InstructionWithStr::new(pair, &mut layer)?
+                };
+                Ok(iws.recreate(&mut local_variables)?)
             })
             .collect::<Result<_, Error>>()?;
         Ok(Self { instructions })
